@@ -34,7 +34,7 @@ def run(ctx, rep) -> None:
     rep.rule("C06.R2", "each .status assignment reached on a handler path: validated | legal for every (from,to) the path condition allows | listed re-arm | listed force-mark | not durable")
     rep.rule("C06.R3", "status column writers: insert_stage, store_stage (4 UPDATEs), upsert_task, store, update_status, update_workflow_status, pause/resume_execution")
     rep.undecided += ["values that only exist at run time through message.status beyond what validate_transition rejects at run time"]
-    rep.assumptions += ["jump force-marks (reset_stage_to_*) are applied to stages the jump protocol owns (source / bypassed NOT_STARTED stages); listed, not proved",
+    rep.assumptions += ["jump force-marks (reset_stage_to_*) are applied to stages the jump protocol owns: the source, which R2 now proves was read RUNNING, and bypassed stages read NOT_STARTED",
                         "from-sets come from the path condition on the object that is written (guards on a stale copy do not count)"]
     # ---- R1 ------------------------------------------------------------------------------------
     sm = prog.module("stabilize.models.status")
@@ -135,6 +135,20 @@ def run(ctx, rep) -> None:
                     rep.check(reason is not None, "C06.R2", f"{f.qualname}: {norm(n)[:60]}", reason or "a .status assignment that no analysed path reaches and that is not listed: cannot be judged",
                               f.file, n.lineno, disc=f"unreached:{f.qualname}:{norm(n)[:40]}")
     rep.count(status_assignment_sites=n_sites)
+
+    # ---- R2 (jump): the force-marks act on a live source --------------------------------------------------------------------
+    # reset_stage_to_succeeded / _terminal assign without validation. They are legal only because the stage that asked for the
+    # jump is RUNNING. A JumpToStage handled after CancelStage(source) must not reach them (CANCELED -> SUCCEEDED).
+    from ..dom import conditions_at as _cond_at
+    jh = prog.func("stabilize.handlers.jump_to_stage.handler", "JumpToStageHandler._handle_with_retry.on_stage")
+    acts = [c for c in ast.walk(jh.node) if isinstance(c, ast.Call) and norm(c.func) in ("self._apply_jump", "self._handle_target_not_found", "self._check_jump_count", "reset_stage_for_retry")]
+    rep.floor("jump actions in JumpToStageHandler.on_stage", len(acts), 3)
+    for c in acts:
+        cs = _cond_at(jh.node, c)
+        ok = ("source_stage.status == WorkflowStatus.RUNNING", True) in cs
+        rep.check(ok, "C06.R2", f"JumpToStage: {norm(c.func)} only for a source stage read RUNNING", "dominated by `source_stage.status == RUNNING`" if ok else
+                  "reached whatever the source stage's status is: a jump handled after CancelStage(source) force-marks the CANCELED stage SUCCEEDED / TERMINAL (unvalidated assignment) and re-arms stages of a finished workflow",
+                  jh.file, c.lineno, disc=f"jump-live-source:{norm(c.func)}")
 
     # ---- R3 ------------------------------------------------------------------------------------
     allowed = {
